@@ -8,6 +8,7 @@ def make_templates(root, PROPS='PROPS', CUTS='CUTS', LIB='LIB'):
     """a fresh template dictionary (PathConfig rewrites the dictionary it is given in place)"""
     t = {
         'pr__file':    '{@root}/{prj}/{kind:PROPS}/{fam}/{item}/{rev}/{fam}-{item}-{status}.{rev}.{fmt:images}',
+        'pr__doc':     '{@root}/{prj}/{kind:PROPS}/{fam}/{item}/{rev}/{fam}-{item}-{status}.{rev}.{fmt:docs}',
         'pr__rev':     '{@root}/{prj}/{kind:PROPS}/{fam}/{item}/{rev}',
         'pr__item':    '{@root}/{prj}/{kind:PROPS}/{fam}/{item}',
         'pr__fam':     '{@root}/{prj}/{kind:PROPS}/{fam}',
